@@ -1,7 +1,7 @@
 (* Props/C12.v -- state-map duality and state constructors denote the documented states.  Property theorems only.
    The density matrix named by a tableau is rho = 2^-r prod_{a in [r,N)} (1+S_a)/2; at the level of this development a state is its signed stabilizer group, so
    "denotes the named density matrix" is stated through the active rows.  to_qutip and the dense matrices are compared numerically by the correspondence check (QuTiP trusted). *)
-From PC Require Import Model.Base Model.Pauli Model.CMap Model.Tableau Model.Spec Proofs.Transform Proofs.MaskFacts Proofs.TableauInv Proofs.ReachFacts Proofs.ProjectCFacts.
+From PC Require Import Model.Base Model.Pauli Model.CMap Model.Tableau Model.Spec Proofs.Transform Proofs.MaskFacts Proofs.TableauInv Proofs.ReachFacts Proofs.ProjectCFacts Proofs.GhzFacts.
 Open Scope Z_scope.
 
 (* converting a map to a state gives the state obtained by applying the map to |0...0>, signs included: every tableau row is the image of the corresponding row of |0..0> *)
@@ -70,3 +70,12 @@ Example C12_ghz_3 :
               stabilizers t = [([(false,true);(false,true);(false,false)],0); ([(false,false);(false,true);(false,true)],0); ([(true,false);(true,false);(true,false)],0)]
   | None => False end.
 Proof. vm_compute. repeat split; reflexivity. Qed.
+(* GHZ for EVERY N >= 1: the constructor's list Z_i Z_{i+1} (i < N-1), X...X is accepted, gives a pure valid state whose stabilizer rows are exactly that list,
+   with the GHZ correlations <Z_i Z_{i+1}> = <X...X> = +1 *)
+Theorem C12_ghz_all_N : forall n, (1 <= n)%nat -> exists t, stabilizer_state_c n (ghz_stabs n) = Some t /\ tableau_ok n t /\ rk t = 0%nat /\ stabilizers t = ghz_stabs n.
+Proof. exact ghz_state_general. Qed.
+Print Assumptions C12_ghz_all_N.
+Theorem C12_ghz_correlations : forall n t i, (1 <= n)%nat -> stabilizer_state_c n (ghz_stabs n) = Some t -> (S i < n)%nat ->
+  expect1 t (zz_str n i, 0%Z) = 1%Z /\ expect1 t (xall_str n, 0%Z) = 1%Z.
+Proof. exact ghz_expectations. Qed.
+Print Assumptions C12_ghz_correlations.
